@@ -147,6 +147,22 @@ def build(rng, tier):
                 if kind == "initialised": continue
                 inst = f"{vid}_{j}"
                 cases.append(engcheck.Case(vid, inst, engcheck.std_history(inst, vid, inp), {"inp": inp, "kind": kind}))
+        # the variants must stay transparent over a HISTORY too: run; push further facts; run again (aggregation-free bases: the
+        # re-run equals a fresh run on the union, C13) — e.g. an attribute that changed how a later run() re-indexes would show here only
+        if not has_agg(p):
+            r3 = rng.fork(f"{pid}hist")
+            inp = gen.nodup_input(r3, p, max_rows=6)
+            extra = gen.nodup_input(r3, p, max_rows=3)
+            union = {r: list(inp.get(r, [])) + [t for t in extra.get(r, []) if t not in inp.get(r, [])] for r in range(len(p["rels"]))}
+            for vid, text, kind in variants:
+                if kind in ("initialised", "ascent_run", "ascent_run_par"): continue
+                inst = f"{vid}_h"
+                ops = engcheck.std_history(inst, vid, inp)
+                for r, rows in extra.items():
+                    rows = [t for t in rows if t not in inp.get(r, [])]
+                    if rows: ops.append(f"eng push {inst} r{r}" + "".join(" " + eng.sx_tuple(t) for t in rows))
+                ops += [f"eng run {inst}", f"eng dump {inst}"]
+                cases.append(engcheck.Case(vid, inst, ops, {"inp": union, "kind": kind + " (run; push; run)"}))
         inst = f"{pid}_init_0"
         cases.append(engcheck.Case(f"{pid}_init", inst, [f"eng new {inst} {pid}_init", f"eng run {inst}", f"eng dump {inst}"],
                                    {"inp": fixed_inp, "kind": "initialised", "baked": True}))
@@ -182,5 +198,5 @@ def check(tier, replay=None):
                                  build=build, oracle=oracle, canon=canon, known=known, what="packaging variants of compiled programs",
                                  rule="base programs x variants {ascent!, ascent_run! and ascent_run_par! with inputs captured from locals, ascent_par!, "
                                       "measure_rule_times, generate_run_timeout, both, an overridden earlier re-declaration, generic struct signature, "
-                                      "include_source! of an ascent_source! at first / middle / last position, relation initialisers} x inputs; every variant's "
+                                      "include_source! of an ascent_source! at first / middle / last position (also together with inner attributes), relation initialisers} x inputs, plus the history run; push; run for every variant; every variant's "
                                       "relations must equal the base's naive model; thorough tier rebuilds everything with the segment-codegen feature")
